@@ -22,7 +22,8 @@ Inductive field :=
 | FRaws (label : string) (v : option (list string))     (* printed verbatim (tokens of doubles) *)
 | FZs   (label : string) (v : list Z)
 | FDt   (label : string) (v : dtype)
-| FCols (label : string) (v : list column).
+| FCols (label : string) (v : list column)
+| FDims (label : string) (v : list dimd).               (* set | range | sampled | alias | frame:<ord or -> *)
 
 (** [ln_id_ok]: the entity's id is the one it was created with (false only after a re-identification) *)
 Record line := mkLine { ln_oid : nat; ln_kind : kind; ln_parent : option nat; ln_id_ok : bool; ln_fields : list field }.
@@ -44,7 +45,7 @@ Definition fields_of (s : db) (e : ent) : list field :=
                         FRefs "R" (kids s o KSource)]
   | KSection => named ++ [FRef "link" (l_link l); FRefs "S" (kids s o KSection); FRefs "P" (kids s o KProperty)]
   | KProperty => [FStr "n" (Some (e_name e)); FStr "d" (e_def e); FDt "dt" (p_dtype p); FZs "cnt" (p_extent p)]
-  | KArray => named ++ [FDt "dt" (p_dtype p); FZs "ext" (p_extent p)] ++ tail
+  | KArray => named ++ [FDt "dt" (p_dtype p); FZs "ext" (p_extent p); FDims "dims" (l_dims l)] ++ tail
   | KFrame => named ++ [FCols "cols" (p_cols p); FZs "rows" (p_extent p)] ++ tail
   | KTag => named ++ [FRaws "pos" (Some (p_tpos p)); FRaws "ext" (norm_empty (p_text p)); FStrs "units" (norm_empty (p_units p));
                       FRefs "refs" (l_refs l); FRefs "X" (kids s o KFeature)] ++ tail
